@@ -247,11 +247,12 @@ fn c14_rotation_policy_12_peers() {
 }
 
 // @prop C14
+// @tier thorough
 // @fn Session::change_conn_state
-// @bound 4 peers (slot limit not binding), every flag combination, every rate vector, every admissible optimistic pick or none
-// @desc as c14_rotation_policy_12_peers on 4 peers (quick tier)
+// @bound 3 peers (slot limit not binding), every flag combination, every rate vector, every admissible optimistic pick or none
+// @desc as c14_rotation_policy_12_peers on 3 peers
 #[kani::proof]
-#[kani::unwind(8)]
-fn c14_rotation_policy_4_peers() {
-    rotation_policy(4);
+#[kani::unwind(5)]
+fn c14_rotation_policy_3_peers() {
+    rotation_policy(3);
 }
